@@ -102,3 +102,41 @@ def _generic_default(eng, m, args, fr, dty):
         from .models_hash import MapV
         return MapV(is_set='Set' in t.split('<')[0])
     return NotImplemented
+
+
+def struct_eq(eng, a, b, fr=None):
+    """structural equality formula of two model values (ints, bools, enums, structs, byte vectors)"""
+    import z3
+    from .engine import Int, Bool, Enum, Struct, Vec, Slice, Ref, Unsupported
+    from .models import items_of
+    a = eng.deref(a, fr) if isinstance(a, Ref) else a
+    b = eng.deref(b, fr) if isinstance(b, Ref) else b
+    if isinstance(a, Int) and isinstance(b, Int):
+        return a.e == b.e
+    if isinstance(a, Bool) and isinstance(b, Bool):
+        return a.e == b.e
+    if isinstance(a, Enum) and isinstance(b, Enum):
+        if a.variant != b.variant or len(a.fields) != len(b.fields):
+            return z3.BoolVal(False)
+        parts = [struct_eq(eng, x, y, fr) for x, y in zip(a.fields, b.fields)]
+        return z3.And(*parts) if parts else z3.BoolVal(True)
+    if isinstance(a, Struct) and isinstance(b, Struct):
+        if len(a.fields) != len(b.fields):
+            return z3.BoolVal(False)
+        parts = [struct_eq(eng, x, y, fr) for x, y in zip(a.fields, b.fields)]
+        return z3.And(*parts) if parts else z3.BoolVal(True)
+    if isinstance(a, (Vec, Slice)) and isinstance(b, (Vec, Slice)):
+        from .models_vec import items_eq
+        return items_eq(eng, items_of(eng, a, fr), items_of(eng, b, fr))
+    from .models_clvm import Tree, nodeptr_eq
+    if isinstance(a, Tree) and isinstance(b, Tree):
+        return nodeptr_eq(a, b)
+    raise Unsupported('structural equality of %r / %r' % (a, b))
+
+
+@model(r'^<((?:std::option::)?Option<.*>|(?:std::result::)?Result<.*>|\(.*\)) as PartialEq>::(eq|ne)$')
+def _std_struct_eq(eng, m, args, fr, dty):
+    import z3
+    from .engine import Bool
+    e = struct_eq(eng, args[0], args[1], fr)
+    return Bool(z3.Not(e) if m.group(2) == 'ne' else e)
